@@ -166,6 +166,7 @@ CHECKS = {
         "assumptions": ["'-' append variation only on hunks without context tests (tests at fixed indices are not adjacent to the end of the array)"],
         "legs": [
             rapid("random", "TestC10Random", {"checks": 25000, "shards": 4}, {"checks": 250000, "shards": 16, "timeout": 6000}),
+            rapid("file", "TestC10File", {"checks": 4000, "shards": 2}, {"checks": 40000, "shards": 8, "timeout": 6000}),
         ],
     },
     "C11": {
@@ -194,6 +195,7 @@ CHECKS = {
             rapid("random", "TestC12Random", {"checks": 30000, "shards": 4}, {"checks": 300000, "shards": 16, "timeout": 6000}),
             rapid("chain", "TestC12Chain", {"checks": 15000, "shards": 2}, {"checks": 150000, "shards": 8, "timeout": 6000}),
             rapid("cli", "TestC12CLI", {"checks": 150, "shards": 4, "shrinktime": "10s"}, {"checks": 2500, "shards": 16, "timeout": 6000}),
+            rapid("file", "TestC12File", {"checks": 4000, "shards": 2}, {"checks": 40000, "shards": 8, "timeout": 6000}),
         ],
     },
     "C14": {
@@ -207,7 +209,7 @@ CHECKS = {
                 "{list, set, mset, setkeys:id, merge, set+merge, mset+merge, precision}; -f jd|patch, -yaml, -color. Non-trivial: at least one flag and a non-empty diff (translate: a successful translation of a non-empty input); distinct by the full case.",
         "assumptions": ["flag -> option translation as in the README usage text; Precision(p) is always passed, as both mains do"],
         "legs": [
-            rapid("random", "TestC14Random", {"checks": 70, "shards": 8, "shrinktime": "15s"}, {"checks": 1500, "shards": 16, "timeout": 6000}),
+            rapid("random", "TestC14Random", {"checks": 130, "shards": 8, "shrinktime": "15s"}, {"checks": 1500, "shards": 16, "timeout": 6000}),
             rapid("precision", "TestC14Precision", {"checks": 20000, "shards": 2}, {"checks": 200000, "shards": 8, "timeout": 6000}),
         ],
     },
@@ -301,6 +303,7 @@ CHECKS = {
         "assumptions": ["RFC 6902 'remove' of the whole document leaves the empty (void) document"],
         "legs": [
             rapid("random", "TestC18Random", {"checks": 30000, "shards": 4}, {"checks": 300000, "shards": 16, "timeout": 6000}),
+            rapid("patched", "TestC18Patched", {"checks": 15000, "shards": 2}, {"checks": 150000, "shards": 8, "timeout": 6000}),
         ],
     },
     "C06": {
